@@ -25,6 +25,7 @@ _real_Thread = threading.Thread
 _real_Semaphore = threading.Semaphore
 _real_Lock = threading.Lock
 
+STARVE = 400
 CURRENT = None       # the installed scheduler (one per process at a time)
 T0 = 1_700_000_000.0
 
@@ -99,7 +100,16 @@ class Sched:
                     self.prio[t.ident_] = 1.0 + self.rng.random()
             if cur_ok and self.nyield in self.change_points:
                 self.prio[cur.ident_] = self.rng.random() * 0.5      # below all initial priorities
-            return max(ready, key=lambda t: self.prio[t.ident_])
+            best = max(ready, key=lambda t: self.prio[t.ident_])
+            # fairness in the limit (real schedulers are fair): a ready thread that has been passed over for
+            # STARVE yield points runs once - strict priorities would turn every polling loop into a livelock
+            for t in ready:
+                if t is not best:
+                    t.starved += 1
+                    if t.starved > STARVE:
+                        best = t
+            best.starved = 0
+            return best
         if cur_ok and cur.state == 'ready':
             if len(ready) > 1:
                 idx = self.cp
@@ -281,6 +291,7 @@ class CoThread(_real_Thread):
         self.wait_on = None
         self.deadline = None
         self.timed_out = False
+        self.starved = 0
         self.ident_ = len(self.sched.threads) if self.sched else -1
 
     def start(self):
